@@ -32,7 +32,36 @@ Definition enc_row (r : Z * Z * Z * Z) : val :=
 Definition enc_table (t : list (Z * Z * Z * Z)) : val := VL (map enc_row t).
 Definition enc_out (ts : list (list (Z * Z * Z * Z))) : val := VL (map enc_table ts).
 
+(* live connection input: [7 [frame ...]] ; frame = [1 id prio dep weight excl] HEADERS opening stream id (prio = PRIORITY flag)
+   | [2 id] RST_STREAM | [3 id dep weight excl] PRIORITY ; output: the table read from sc.streams after every frame *)
+Definition dec_lop (v : val) : option lop :=
+  match v with
+  | VL [VZ 1; VZ id; VZ p; VZ dep; VZ w; VZ e] => Some (LHeaders id (negb (p =? 0)) dep w (negb (e =? 0)))
+  | VL [VZ 2; VZ id] => Some (LReset id)
+  | VL [VZ 3; VZ id; VZ dep; VZ w; VZ e] => Some (LPrio id dep w (negb (e =? 0)))
+  | _ => None
+  end.
+Definition enc_lop (o : lop) : val :=
+  match o with
+  | LHeaders id p dep w e => VL [VZ 1; VZ id; VZ (if p then 1 else 0); VZ dep; VZ w; VZ (if e then 1 else 0)]
+  | LReset id => VL [VZ 2; VZ id]
+  | LPrio id dep w e => VL [VZ 3; VZ id; VZ dep; VZ w; VZ (if e then 1 else 0)]
+  end.
+Definition enc_live (l : list lop) : val := VL [VZ 7; VL (map enc_lop l)].
+Definition dec_live (v : val) : option (list lop) :=
+  match v with
+  | VL [VZ 7; VL l] => all_some (map dec_lop l)
+  | _ => None
+  end.
+
 Definition run_C36 (i : val) : val :=
+  match dec_live i with
+  | Some lops =>
+    match lrun pst0 lops with
+    | None => VErr 1
+    | Some ts => enc_out ts
+    end
+  | None =>
   match dec_ops i with
   | None => VErr 0
   | Some ops =>
@@ -40,6 +69,7 @@ Definition run_C36 (i : val) : val :=
     | None => VErr 1                      (* an ancestor walk did not terminate within the fuel *)
     | Some ts => enc_out ts
     end
+  end
   end.
 
 Definition agree_C36 (i o : val) : bool := val_eqb (run_C36 i) o.
@@ -62,9 +92,15 @@ Definition table_ok (v : val) : bool :=
   | Some t => table_acyclic t
   | None => false
   end.
+Definition steps_of (i : val) : option nat :=
+  match i with
+  | VL [VZ 7; VL l] => Some (length l)          (* live script: one table per frame; a hung serve loop yields fewer *)
+  | VL ops => Some (length ops)
+  | _ => None
+  end.
 Definition prop_C36 (i o : val) : bool :=
-  match i, o with
-  | VL ops, VL tabs => (length ops =? length tabs)%nat && forallb table_ok tabs
+  match steps_of i, o with
+  | Some n, VL tabs => (n =? length tabs)%nat && forallb table_ok tabs
   | _, _ => false
   end.
 
